@@ -73,7 +73,41 @@ pub struct Outcome {
     pub violation: Option<(String, String)>,
 }
 
+/// what the generated schedules exercised (evidence classes): steps per action kind, objects per family
+static ACTION_COUNTS: [AtomicU64; 7] = [AtomicU64::new(0), AtomicU64::new(0), AtomicU64::new(0), AtomicU64::new(0), AtomicU64::new(0), AtomicU64::new(0), AtomicU64::new(0)];
+static FAMILY_OBJECTS: std::sync::Mutex<std::collections::BTreeMap<String, u64>> = std::sync::Mutex::new(std::collections::BTreeMap::new());
+static SAME_TYPE_SCHEDULES: AtomicU64 = AtomicU64::new(0);
+
+fn count_schedule(s: &Schedule) {
+    for (_, a) in &s.steps {
+        let k = match a {
+            Action::SampleShared => 0,
+            Action::SamplePrivate(_) => 1,
+            Action::IterTake(_) => 2,
+            Action::CloneAndSample => 3,
+            Action::RebuildAndSample => 4,
+            Action::CloneFrom(_) => 5,
+            Action::DirtySlice(_) => 6,
+        };
+        ACTION_COUNTS[k].fetch_add(1, Ordering::Relaxed);
+    }
+    let mut same = false;
+    for (i, c) in s.cells.iter().enumerate() {
+        if s.cells[..i].iter().any(|d| d.fam == c.fam && d.ft == c.ft) {
+            same = true;
+        }
+    }
+    if same {
+        SAME_TYPE_SCHEDULES.fetch_add(1, Ordering::Relaxed);
+    }
+    let mut m = FAMILY_OBJECTS.lock().unwrap();
+    for c in &s.cells {
+        *m.entry(c.fam.name()).or_insert(0) += 1;
+    }
+}
+
 pub fn run_schedule(s: &Schedule) -> Outcome {
+    count_schedule(s);
     let mut out = Outcome { nontrivial: false, violation: None };
     let mut cells_now: Vec<Cell> = s.cells.clone();
     let mut objs: Vec<Box<dyn Sampler>> = match s.cells.iter().map(build).collect::<Result<Vec<_>, _>>() {
@@ -394,6 +428,13 @@ pub fn run(ctx: &Ctx) {
     });
     ctx.eval(evals.load(Ordering::Relaxed));
     ctx.nontrivial_add(nontriv.load(Ordering::Relaxed).min(cases as u64));
+    for (k, nm) in ["SampleShared", "SamplePrivate", "IterTake", "CloneAndSample", "RebuildAndSample", "CloneFrom", "DirtySlice"].iter().enumerate() {
+        ctx.class(&format!("steps:{nm}"), ACTION_COUNTS[k].load(Ordering::Relaxed));
+    }
+    ctx.class("schedules_with_two_objects_of_one_type", SAME_TYPE_SCHEDULES.load(Ordering::Relaxed));
+    for (f, n) in FAMILY_OBJECTS.lock().unwrap().iter() {
+        ctx.class(&format!("objects:{f}"), *n);
+    }
     // deterministic part: complementary-parameter pairs interleaved on one stream
     let pairs = [
         (Cell::newi(Fam::Binomial, &[1000], &[0.25]), Cell::newi(Fam::Binomial, &[1000], &[0.75])),
